@@ -155,6 +155,13 @@ func buildResultOutputItems(results []Result, repoDir string) []resultOutputItem
 
 // deriveFileURL creates a file:// URL from a relative path and repo directory.
 func deriveFileURL(relPath, repoDir string) string {
+	// A project reached through a relative --dir (".", "..", "sub/..") must
+	// still yield the URL of the file's absolute path.
+	if !filepath.IsAbs(repoDir) && !(len(repoDir) >= 2 && repoDir[1] == ':') {
+		if abs, err := filepath.Abs(repoDir); err == nil {
+			repoDir = abs
+		}
+	}
 	absPath := filepath.Join(repoDir, relPath)
 	absPath = strings.ReplaceAll(absPath, "\\", "/")
 	absPath = filepath.ToSlash(absPath)
